@@ -148,6 +148,11 @@ def st_case(draw, max_len=25):
                 for v in held:
                     churn += [["set", ["Q14", v]], ["qfree", ["Q14"]]]
             body = churn + body
+        if draw(st.integers(0, 7)) == 0:
+            # a value beyond 32 bits (the simulated controller does not limit its integers) stored and returned to the host
+            big_addr = draw(st.sampled_from(addrs))
+            body = body + [["set", ["R0", draw(st.sampled_from([2**31 - 1, -(2**31), 2**30 + 7]))]], [draw(st.sampled_from(["add", "sub"])), ["R1", "R0", draw(st.sampled_from(["R0", "R3"]))]],
+                           ["add", ["R1", "R1", "R1"]], ["store", ["R1", {"addr": big_addr, "idx": draw(st.sampled_from(IDX_CONST))}]], ["ret_arr", [{"addr": big_addr}]]]
         if again and k == again_at - 1:
             body = body + [["store", [draw(st_src), {"addr": again_addr, "idx": draw(st.sampled_from(IDX_CONST))}]], ["ret_arr", [{"addr": again_addr}]]]
         if again and k == again_at:
